@@ -459,7 +459,7 @@ def check_C01(run):
     def extra(rng, run):
         out = []
         for f in gen.sample_files():
-            out += gen.truncations(f, max(1, len(f) // (120 if run.tier == "quick" else 2000)))
+            out += gen.truncations(f, max(1, len(f) // (120 if run.tier == "quick" else 480)))
         for t in gen.test_strings(300 if run.tier == "quick" else None):
             if len(t) < 80:
                 out += gen.truncations(t)
